@@ -262,6 +262,18 @@ def Spec.run (sp : Spec) : List SEv → Spec × List (List SOut)
     let r2 := Spec.run r1.1 es
     (r2.1, r1.2 :: r2.2)
 
+/-- the Spec's EVENT fan-out (`Spec.dispatch`: the handlers attached at arrival, in order, each still attached at its
+turn, with the event's kwargs plus its own details only) run on a *model* state, with the model's semantics for what
+the user code does -/
+def fanout (s : Sess) (sub : SubId) (args : Args) (kw : List (Key × KwVal)) : List SubRec → List HAct → Sess × List SOut
+  | [], _ => (s, [])
+  | r :: rest, beh =>
+    if ((alookup sub s.subs).getD []).any (·.obj == r.obj) then
+      let r1 := runAct s (some r.obj) (beh.headD {})
+      let r2 := fanout r1.1 sub args kw rest beh.tail
+      (r2.1, .invoke r.obj r.h args (handlerKw r kw) :: r1.2 ++ r2.2)
+    else fanout s sub args kw rest beh
+
 /-! ## abstraction: the Spec state a model state stands for -/
 
 /-- the six request tables read as one map `id ↦ (kind, request)` -/
